@@ -336,7 +336,7 @@ class Gen:
         """shapes aimed at the interaction of branches"""
         sp, r = self.sp, self.r
         Q = self.Quantity
-        k = r.randrange(12)
+        k = r.randrange(15)
         u = self.unit()
         w = self.unit()
         def q(e):
@@ -377,7 +377,16 @@ class Gen:
             return sp.Abs(q((-3 + r.choice([0, 4]) * sp.I) * u)) + 2 * u
         if k == 10:  # zero factor in product followed by dimensional factor
             return q(0 * u) * w + q(3 * self.unit())
-        return sp.Min(u, 2 * u, q(3 * u)) / sp.Max(w, q(2 * w))
+        if k == 11:
+            return sp.Min(u, 2 * u, q(3 * u)) / sp.Max(w, q(2 * w))
+        if k == 12:  # zero-valued base with a dimensional, non-zero exponent (must be refused), several spellings of zero
+            z = r.choice([q(0 * u), q(2 * u) - q(2 * u), sp.Min(q(0 * u), q(3 * u))])
+            return z ** r.choice([q(2 * w), w / self.unit(), 2 * w])
+        if k == 13:  # zero-valued exponent that carries a dimension (compatible with any dimension: accepted)
+            return (3 * u) ** r.choice([q(2 * w) - q(2 * w), q(0 * w)]) * r.choice([1, w])
+        # any-valued operands deciding an unevaluated Min/Max or surviving in a sum
+        a = q(r.choice([-3, 5, 2]) * u)
+        return r.choice([sp.Max(q(0 * u), a), sp.Min(q(0 * w), a), sp.Max(a, q(0)), a + sp.oo, sp.Min(a, sp.oo * w), a - a + q(0 * w)])
 
 
 def sym2mp(x):
